@@ -289,7 +289,26 @@ def rule_agree(ctx):
                             "records and targets are selected differently (op #%d): records=%s targets=%s" % (
                                 diff, a[diff] if diff < len(a) else None, b[diff] if diff < len(b) else None),
                             fn_loc(fn, (seqs["records"] + seqs["targets"])[0][2].node["ln"] if (a or b) else None))
-    return res.finish(20)
+    # (c) fold: validation is chunk 0, training is every other chunk (an open-ended `[1..]`)
+    for fn in the_fn(res, F, "fold", "DatasetBase"):
+        tr = Tracer(fn).run()
+        key = fn_key(fn)
+        for e in tr.events:
+            if e.kind == "index" and isinstance(e.idx, Term) and e.idx.op.startswith("struct:std::ops::Range") and "call:axis_chunks_iter" in k(e.base):
+                inst = "%s : training part = chunks[%s]" % (key, k(e.idx)[16:60])
+                res.instance(inst)
+                fields = {a.op[1:]: a.args[0] for a in e.idx.args if isinstance(a, Term) and a.op.startswith("=")}
+                start = as_poly(fields.get("start")) if fields.get("start") is not None else None
+                open_ended = e.idx.op.endswith("RangeFrom")
+                full = False
+                if "end" in fields:
+                    t = as_term(fields["end"])
+                    full = t is not None and t.is_call("len") and "call:axis_chunks_iter" in k(t)
+                if start is not None and start.const_value() == 1 and (open_ended or full):
+                    res.ok()
+                else:
+                    res.violate("%s : training-not-complement" % key, "the training part is built from chunks[%s], not from every chunk but the validation one: samples of the tail (n not divisible by k) vanish from every training set" % k(e.idx)[16:80], fn_loc(fn, e.node["ln"]))
+    return res.finish(22)
 
 
 SAMPLE_COUNT_CALLS = {"nsamples", "nrows"}
